@@ -46,6 +46,13 @@ type Run struct {
 	// Noise exercises the code under test with varied inputs; it runs in other
 	// goroutines while a case is replayed concurrently.
 	Noise func(i int)
+	// Stuck turns an input whose evaluation never returned (see Watch) into
+	// the violation to report; its Case must be replayable.
+	Stuck func(input []byte) V
+
+	// skipConfirm: the run is being ended by the watchdog (the code under test
+	// hangs); replaying further cases could hang as well
+	skipConfirm bool
 
 	start    time.Time
 	cap      time.Duration
@@ -325,7 +332,7 @@ func (r *Run) Finish() {
 	// 5x confirmation of each unlisted violation through the replayer.
 	var confirmed []V
 	for _, v := range unlisted {
-		if r.Replayer != nil && !v.NoConfirm {
+		if r.Replayer != nil && !v.NoConfirm && !r.skipConfirm {
 			raw, err := json.Marshal(v.Case)
 			if err != nil {
 				Harness("marshal case: %v", err)
@@ -455,7 +462,6 @@ func Harness(format string, args ...any) {
 func Q(b []byte) string { return strconv.Quote(string(b)) }
 
 func sinceSeconds(r *Run) float64 { return time.Since(r.start).Seconds() }
-
 
 func (r *Run) replayConcurrently(raw json.RawMessage, key string) bool {
 	var found, stop int32
